@@ -1,16 +1,57 @@
 """C02 — direct piecewise evaluation selects the half-open segment containing x."""
 from .common import *
 from .selector import *
-from ..terms import sym, term_str
+from ..terms import sym, term_str, simp, NF, subterms, TRUE, FALSE
 from ..facts import adt, param
 
 LEVEL = 'proof'
-TRUSTED = ['std contract of Iterator::position / find (first index whose predicate holds, None if none)',
+TRUSTED = ['std contract of Iterator::position / find / slice::partition_point (first index whose predicate holds, None/len if none)',
            'slice::last returns the element at len-1']
 ASSUMPTIONS = ['non-empty segment list, non-NaN x and ends (stated by the property)']
-EXPLANATION = ('the value-numbered result of Piecewise::evaluate must be '
-               'Select(found(first i over the whole vector with end_i > x), T::evaluate(poly_i, x), T::evaluate(poly_last, x)) '
-               'with x and the returned value unmodified')
+EXPLANATION = ('the value-numbered result of Piecewise::evaluate must be T::evaluate(segments[IDX].poly, x) with x and the value '
+               'unmodified, where IDX — whatever search idiom produced it (position, find, partition_point + min) — simplifies to '
+               'the first index over the whole vector with end > x when one exists and to len−1 otherwise')
+
+
+def index_of(t, S, x):
+    """push selects inwards: -> index term such that t == T::evaluate(S[index].poly, x); None if t is not of that shape"""
+    if isinstance(t, tuple) and t and t[0] == 'sel':
+        a = index_of(t[2], S, x)
+        b = index_of(t[3], S, x)
+        if a is None or b is None:
+            return None
+        return ('sel', t[1], a, b)
+    if isinstance(t, tuple) and len(t) == 5 and t[0] == 'uf' and t[1] == 'poly::Evaluate::evaluate' and t[4] == x \
+            and isinstance(t[3], tuple) and t[3][0] == 'elem' and t[3][1] == S and t[3][3] == 'poly':
+        return t[3][2]
+    return None
+
+
+def reduce_index(t, facts):
+    """simplify imin/select in an index term using linear entailment under `facts`"""
+    from .panics import entails
+    if not isinstance(t, tuple):
+        return t
+    if t[0] == 'imin':
+        a, b = reduce_index(t[1], facts), reduce_index(t[2], facts)
+        if entails(facts, ('icmp', 'le', a, b)):
+            return a
+        if entails(facts, ('icmp', 'le', b, a)):
+            return b
+        return ('imin', a, b)
+    if t[0] == 'sel':
+        c = t[1]
+        if c in facts:
+            return reduce_index(t[2], facts)
+        from ..terms import mk_not
+        if mk_not(c) in facts:
+            return reduce_index(t[3], facts)
+        if entails(facts, c):
+            return reduce_index(t[2], facts)
+        if entails(facts, mk_not(c)):
+            return reduce_index(t[3], facts)
+        return ('sel', c, reduce_index(t[2], facts | {c}), reduce_index(t[3], facts | {mk_not(c)}))
+    return t
 
 
 def check(cx):
@@ -22,46 +63,51 @@ def check(cx):
         return rep
     inst = f['path']
     file, line = fn_loc(f)
+    RULES = ('first', 'pred', 'same-index', 'fallback', 'pass')
 
     def go():
         a = cx.analyse(f, arg_names=['self', 'x'])
         rep.analysed_fns.add(inst)
-        ret = a.ret
         x = sym('x')
         S = ('seq', 'self.segments')
+        lenS = ('len', S)
+        ret = simp(a.ret, {('isnan', x): False})
         rep.sample({'fn': inst, 'result': term_str(ret)[:500]})
-        if not (isinstance(ret, tuple) and ret[0] == 'sel' and isinstance(ret[1], tuple) and ret[1][0] == 'found'):
-            for r in ('first', 'pred', 'same-index', 'fallback', 'pass'):
-                rep.ob(r, inst, False, 'result is not Select(found(search), …): ' + term_str(ret)[:300], fn=inst, file=file, line=line,
-                       key='C02:shape:' + inst)
+        IDX = index_of(ret, S, x)
+        rep.ob('pass', inst, IDX is not None, 'result = T::evaluate(segments[IDX].poly, x), unmodified', fn=inst, file=file, line=line,
+               msg='the returned bits are not the unmodified T::evaluate(&segments[i].poly, x) of one piece: ' + term_str(ret)[:300])
+        if IDX is None:
+            for r in RULES[:-1]:
+                rep.ob(r, inst, False, 'no piece index can be read off the result', fn=inst, file=file, line=line, key='C02:shape:' + inst)
             return
-        found = ret[1]
-        hit, miss = ret[2], ret[3]
-        _, sterm, ivar, P = found
-        ok_first = whole_view(sterm, 'self.segments')
+        searches = [e for e in a.it.events if e['kind'] == 'search' and e['fn'] == inst]
+        if len(searches) != 1:
+            for r in RULES[:-1]:
+                rep.ob(r, inst, False, 'expected one search over the segments, found %d' % len(searches), fn=inst, file=file, line=line,
+                       key='C02:shape:' + inst, msg='Piecewise::evaluate does not select its piece by one search over the segments (%d searches found)' % len(searches))
+            return
+        ev = searches[0]
+        found, fi = ev['found'], ev['idx']
+        sterm = found[1]
+        ivar, P = ev['ivar'], ev['pred']
+        ok_first = whole_view(sterm, 'self.segments') and not ev['rev'] and fi[0] == 'firstidx'
         rep.ob('first', inst, ok_first, 'search domain: ' + term_str(sterm)[:200], fn=inst, file=file, line=line,
-               msg='the search is not a forward first-match scan over all segments: ' + term_str(sterm)[:200])
+               msg='the search is not a forward first-match search over all segments: %s%s' % (term_str(sterm)[:200], ' (from the back)' if ev['rev'] else ''))
         pc = pred_class(P, ('elem', S, ivar, 'end'), x)
         rep.ob('pred', inst, pc == 'gt', 'predicate: ' + term_str(P), fn=inst, file=file, line=line,
                msg='segment is chosen by `%s`, expected end > x (strict): %s' % (term_str(P), pc))
-        idx = ('firstidx', sterm, ivar, P)
-        ok_same = eval_on_piece(hit, S, idx, x)
-        uses_first = isinstance(hit, tuple) and idx in list(_sub(hit))
-        rep.ob('same-index', inst, ok_same or False, 'on a match: ' + describe_eval(hit), fn=inst, file=file, line=line,
-               msg='on a match the value is %s, expected evaluate(segments[first matching index].poly, x)' % describe_eval(hit))
-        lastidx = ('i-', ('len', S), ('ic', 1))
-        ok_fb = eval_on_piece(miss, S, lastidx, x)
-        rep.ob('fallback', inst, ok_fb, 'no match: ' + describe_eval(miss), fn=inst, file=file, line=line,
-               msg='when no end exceeds x the value is %s, expected evaluate(last segment, x)' % describe_eval(miss))
-        ok_pass = all(isinstance(t, tuple) and t[0] == 'uf' and t[1] == 'poly::Evaluate::evaluate' and t[-1] == x for t in (hit, miss))
-        rep.ob('pass', inst, ok_pass, 'returned value is the unmodified result of T::evaluate(…, x)', fn=inst, file=file, line=line,
-               msg='the returned bits are not the unmodified T::evaluate(piece, x)')
+        nonempty = ('icmp', 'ne', lenS, ('ic', 0))
+        nf = NF()
+        i_hit = reduce_index(simp(IDX, {found: True}), frozenset({found, nonempty}))
+        ok_same = isinstance(i_hit, tuple) and i_hit[0] != 'sel' and nf(i_hit).equals(nf(fi))
+        rep.ob('same-index', inst, ok_same, 'on a match the piece index is ' + term_str(i_hit)[:160], fn=inst, file=file, line=line,
+               msg='when some end exceeds x the piece index is %s, expected the first matching index' % term_str(i_hit)[:200])
+        from ..terms import mk_not
+        i_miss = reduce_index(simp(IDX, {found: False}), frozenset({mk_not(found), nonempty}))
+        ok_fb = isinstance(i_miss, tuple) and i_miss[0] != 'sel' and nf(i_miss).equals(nf(lenS) - nf(('ic', 1)))
+        rep.ob('fallback', inst, ok_fb, 'without a match the piece index is ' + term_str(i_miss)[:160], fn=inst, file=file, line=line,
+               msg='when no end exceeds x the piece index is %s, expected len − 1 (the last segment)' % term_str(i_miss)[:200])
     guarded(rep, 'first', inst, f, go)
-    for r in ('first', 'pred', 'same-index', 'fallback', 'pass'):
+    for r in RULES:
         rep.floor(r, 1)
     return rep
-
-
-def _sub(t):
-    from ..terms import subterms
-    return subterms(t)
